@@ -853,7 +853,7 @@ func runRaceMode(prop string, seed uint64, secs int) (runs, races int, report st
 	}
 	cmd := exec.Command(bin)
 	cmd.Env = append(os.Environ(), fmt.Sprintf("VERIF_RACE=%s:%d:%d", prop, seed&0xffffffff, secs), "GORACE=halt_on_error=0")
-	timer := time.AfterFunc(time.Duration(secs)*time.Second*2+10*time.Minute, func() { cmd.Process.Kill() })
+	timer := time.AfterFunc(time.Duration(secs)*time.Second*2+5*time.Minute, func() { cmd.Process.Kill() })
 	out, _ := cmd.CombinedOutput()
 	timer.Stop()
 	text := string(out)
